@@ -306,7 +306,10 @@ def run(tier, seed):
     rep = Report(PID, tier, seed, "translation_validation")
     ps = programs_for(tier, seed)
     tasks = [(task, (p, cse, tier, seed)) for p in ps for cse in (True, False)] + [(task_cse_pair, (p, tier, seed)) for p in ps] + [(task_regimes, (p, True, tier, seed)) for p in ps]
-    for d in pmap(_dispatch, tasks):
+    from .common import pmap_staged
+
+    first = [t for t in tasks if t[0] is task_regimes]
+    for d in pmap_staged(_dispatch, first, [t for t in tasks if t[0] is not task_regimes]):
         rep.merge(d)
     rep.bounds = {"programs": [p.id for p in ps], "cse": [True, False], "inputs": "all reals where the specification's denominators are non-zero", "outside": "floating-point rounding; programs outside the corpus; strapdown model is decided under C19"}
     rep.assumptions = ["reals for doubles; float literals as exact rationals", "sin/cos/exp/sqrt as uninterpreted functions with sound axioms", "numpy shim (zeros/eye/array/allclose/any/isfinite) - see DESIGN 7"]
